@@ -35,7 +35,11 @@ def run(tier):
             visc = rng.choice([0.0, 0.0, 0.11])
             n = rng.choice([1, 5, 40])
             U = np.array(sorted(rng.uniform(0.1, 80.0) for _ in range(n)))
-            nanpos = [i for i in range(n) if n > 1 and rng.random() < 0.2]
+            # missing winds: a few, or (every third configuration) more missing than valid values
+            pnan = 0.7 if rep % 3 == 2 else 0.2
+            nanpos = [i for i in range(n) if n > 1 and rng.random() < pnan]
+            if n > 1 and len(nanpos) == n:
+                nanpos = nanpos[1:]
             Uin = U.copy()
             Uin[nanpos] = np.nan
             form = rng.choice(["array", "dataarray", "scalar"]) if n == 1 else rng.choice(["array", "dataarray"])
